@@ -136,6 +136,10 @@ func (g *schemaGenerator) generateReferencedType(t *schemas.Type) (codegen.Type,
 			return nil, fmt.Errorf("%w: %q (from ref %q)", errDefinitionDoesNotExistInSchema, defName, t.Ref)
 		}
 
+		if def == nil {
+			return nil, fmt.Errorf("%w: %q (from ref %q)", errNullSchema, defName, t.Ref)
+		}
+
 		if len(def.Type) == 0 && len(def.Properties) == 0 {
 			return &codegen.EmptyInterfaceType{}, nil
 		}
